@@ -8,7 +8,8 @@ TIE_EXTRA = {
         "theorems": ["gen_grammar_format_equiv", "gen_grammar_named_format_equiv", "gen_grammar_format_roundtrip",
                      "gen_grammar_named_format_roundtrip", "gen_grammar_format_total", "gen_grammar_float_regex",
                      "gen_grammar_assignment_equiv", "gen_grammar_assignment_equiv_model",
-                     "gen_grammar_parse_sound_complete", "gen_grammar_parse_deparse", "gen_grammar_assignment_total"],
+                     "gen_grammar_parse_sound_complete", "gen_grammar_parse_deparse", "gen_grammar_assignment_total",
+                     "gen_grammar_roundtrip_int"],
         "source": "expression/_parser.py (TensorExpressionParsers, make_expression, parse_assignment), "
                   "format/_parser.py (FormatParsers, make_format_with_orderings, parse_format, parse_named_format) "
                   "+ the dataclass fields of expression/ast.py, Format.__post_init__, the exception classes; "
